@@ -99,7 +99,8 @@ def run_check(pid: str, tier: str, seed: int, replay: str | None = None) -> int:
             total.bump("corpus_cases")
         total.merge(core.run_sharded(modname, seed, tier))
         # failing-input search on an enlarged budget when a proof or the correspondence broke
-        if (not proofs_ok or total.disagreements) and not total.failures:
+        known_now = core.known_signatures(pid)
+        if (not proofs_ok or total.disagreements) and not [f for f in total.failures if f.get("signature", "") not in known_now]:
             notes.append("escalated failing-input search (proof or correspondence broken)")
             esc = core.run_sharded(modname, seed, tier, escalate=True)
             total.failures += esc.failures
